@@ -47,6 +47,16 @@ CHECKS.update({
             "DESIGN.md 4/C09"),
 })
 
+CHECKS.update({
+    "C14": ("exploration",
+            "exhaustive product enumeration of legacy CSV rule files x boundary transactions; differential execution of the real migration (CSV rules vs migrated merchants.rules vs load_csv_as_engine)",
+            "Every one-row CSV over 17 regex patterns x 13 modifier forms x 3 merchant names x category set/empty x 3 tag forms, and every ordered pair (quick) / triple (thorough) "
+            "over a 20-row reduced alphabet, is migrated by the real _migrate_csv_to_rules in a scratch budget; the generated file must load and normalize_merchant must give the "
+            "same (merchant, category, subcategory, tag set) for every description x boundary amount x boundary date before and after, and through load_csv_as_engine.",
+            "today fixed at 2025-06-15; two recorded known findings (relative dates, ' and ' inside a CSV regex)",
+            "DESIGN.md 4/C14"),
+})
+
 NOT_YET = {}
 
 PROPS = [json.loads(l)["id"] for l in open(os.path.join(ROOT, "properties.jsonl"))]
